@@ -252,6 +252,34 @@ def routeVerdict (m : Mon) (cc : World.CliConf) (sc : World.SrvConf) (sname : St
       | some l, some i => if l.contains i then "ok" else "bad C08:forwarded-to-a-server-that-is-not-the-first-matching-realms"
       | _, _ => "bad C08:forwarded-though-the-first-matching-realm-has-no-server-for-this-request-type"
 
+/-- C08, the other direction: a request that nothing stands in the way of (first use of its identifier, acceptable, nothing in it that a
+    later stage may refuse, no rewriting before the realm is chosen) and whose first matching realm lists servers for its type - all of them
+    present, none of them the sender under loop prevention, all with plenty of free identifiers - is forwarded -/
+def mustRouteVerdict (m : Mon) (cc : World.CliConf) (pkt : Bytes) (out : String) (trToks : List String) : String :=
+  let as := attrsOf pkt
+  let ttlT := m.cfg.opts.ttlType
+  if !(codeOf pkt = 1 || codeOf pkt = 4) || cc.rwUser.isSome || cc.rwIn.isSome || pkt.length > 3000 then "ok"
+  else if (cc.reqMA || cc.reqMAProxy) && !as.any (·.1 = 80) then "ok"
+  else if as.any fun a => a.1 = 79 || a.1 = 2 || a.1 = 3 || a.1 = 26 || (ttlT.2 = 256 && a.1.toNat = ttlT.1) then "ok"
+  else match firstOf 1 pkt with
+  | none => "ok"
+  | some u =>
+    if u.contains 0 then "ok" else
+    match firstRealm m trToks u with
+    | some (some r) =>
+      (match World.realmServers r (codeOf pkt) with
+       | some l =>
+         let fine := !l.isEmpty && l.all fun i =>
+           match m.cfg.srvs[i]? with
+           | some (name, sc, _) =>
+             !(sections out).any (fun sec => sec.startsWith ("S:" ++ name ++ ":-")) &&
+             (((m.slots.find? (·.1 = name)).map (·.2)).getD []).length < 200 &&
+             !World.loopPrevents m.cfg.opts cc sc
+           | none => false
+         if fine then "bad C08:request-matching-a-realm-with-servers-neither-forwarded-nor-answered" else "ok"
+       | none => "ok")
+    | _ => "ok"
+
 /-- C08 on a reply the proxy produced itself for a fresh (not retransmitted) request -/
 def localVerdict (m : Mon) (cc : World.CliConf) (rq out : Bytes) (trToks : List String) : String :=
   -- whatever the realm says, a reply the proxy makes itself is of the kind that answers the request
@@ -269,7 +297,7 @@ def localVerdict (m : Mon) (cc : World.CliConf) (rq out : Bytes) (trToks : List 
     else if codeOf rq = 1 && codeOf out = 3 && !eapMayReject then "bad C08:access-request-without-user-name-answered"
     else "ok"
   | some u =>
-    if u.contains 0 || u.isEmpty then "ok" else
+    if u.contains 0 then "ok" else
     if codeOf rq = 1 && codeOf out = 3 && !eapMayReject then
       (match firstRealm m trToks u with
        | none => "ok"
@@ -513,7 +541,7 @@ def monOp0 (m : Mon) (op : String) (args : List String) (impl : List String) (tr
                  else if userPwdVerdict cc sc pkt b ≠ "ok" then userPwdVerdict cc sc pkt b
                  else if ttlSkips m.cfg.opts.ttlType [cc.rwIn, sc.rwOut] then "ok"
                  else ttlVerdict m.cfg.opts.ttlType (World.effAddTtl m.cfg.opts sc.addttl) pkt b "request")
-            | [] => "ok"
+            | [] => if !qgrew && acceptable && !ret0 && !seenIdBefore then mustRouteVerdict m cc pkt out trToks else "ok"
         let m := { m with fwdAt := (if fwdToks.isEmpty then m.fwdAt else (k, pkt, m.now) :: m.fwdAt.filter fun (j, p, _) => !(j = k && p == pkt)),
                           recv := (k, pkt) :: m.recv,
                           queue := m.queue ++ List.replicate ((ql.getD k 0) - (m.qlen.getD k 0)) (k, QEnt.loc pkt (m.recv.any fun (j, p) => j = k && (p == pkt ||
@@ -748,6 +776,11 @@ def monOp0 (m : Mon) (op : String) (args : List String) (impl : List String) (tr
         match conf with
         | none => if handled then "bad C14:datagram-from-unconfigured-source-was-processed" else "ok"
         | some c =>
+          -- C01: a datagram of a configured peer that holds a whole request of legal size (20..4096 octets) is handed to the request
+          -- handler - at either end of the range
+          if !handled && pkt.length ≥ 20 && len ≥ 20 && len ≤ 4096 && pkt.length ≥ len then
+            "bad C01:request-of-legal-size-from-a-configured-udp-peer-not-processed"
+          else
           -- C10: same source address+port, same identifier and authenticator, less than DuplicateInterval ago
           if fwd && (m.udpSeen.any fun (n', b', t) => n' = n && b' == body && m.now - t < c.dup) then
             "bad C10:retransmission-within-DuplicateInterval-forwarded-again"
